@@ -227,6 +227,17 @@ func backward(v ssa.Value, throughPhi bool) map[ssa.Value]bool {
 				}
 			}
 			return
+		case *ssa.MakeClosure:
+			// captured variables are cells: what was stored into them reaches the closure
+			for _, b := range y.Bindings {
+				if cell, ok := b.(*ssa.Alloc); ok {
+					for _, r := range ssau.Refs(cell) {
+						if st, ok := r.(*ssa.Store); ok && st.Addr == cell {
+							walk(st.Val, d+1)
+						}
+					}
+				}
+			}
 		case *ssa.UnOp:
 			if y.Op == token.MUL {
 				switch a := y.X.(type) {
